@@ -28,8 +28,8 @@ Definition validate_func_calls (e : env) (raw : node) : result unit :=
              else match kid_items "Args" call with
                   | [] => Ok tt
                   | [a] => if is_kind "A_Const" a || is_kind "ColumnRef" a then Ok tt
-                           else Err "expected parameter to sqlc.arg to be string or reference"
-                  | _ => Err "expected 1 parameter to sqlc.arg"
+                           else err_at (loc_of call) "expected parameter to sqlc.arg to be string or reference"
+                  | _ => err_at (loc_of call) "expected 1 parameter to sqlc.arg"
                   end
            else Ok tt in
          match sqlc_check with
@@ -37,7 +37,7 @@ Definition validate_func_calls (e : env) (raw : node) : result unit :=
              (* a sqlc.arg call with no arguments returns before the catalog lookup *)
              if String.eqb (str_of "Schema" fn) "sqlc" && Nat.eqb (List.length (kid_items "Args" call)) 0 then go rest else
              match resolve_func e call with
-             | FError m => Err m
+             | FError m => err_at (loc_of call) m
              | _ => go rest
              end
          | other => other
@@ -85,6 +85,28 @@ Definition parse_query (e : env) (raw : node) (src : string) (positional : bool)
       do sc <- strip_comments expanded;
       Ok (Some (mkQuery name cmd (fst sc) (snd sc) params cols))
   end.
+
+(** the location an error carries, if any *)
+Definition err_loc (msg : string) : option Z :=
+  match msg with
+  | String "@" rest =>
+      (fix go (s : string) (acc : Z) (seen : bool) : option Z :=
+         match s with
+         | String c r =>
+             let n := N_of_ascii c in
+             if ((48 <=? n) && (n <=? 57))%N then go r (acc * 10 + Z.of_N (n - 48))%Z true
+             else if Ascii.eqb c ":" && seen then Some acc else None
+         | EmptyString => None
+         end) rest 0%Z false
+  | _ => None
+  end.
+
+(** multierr.Add + compile.go: where an error of the statement [raw] is
+    reported: the error's own location if it has one, else the statement's;
+    location 0 (or an empty file) gives 1:1 *)
+Definition report_position (src : string) (raw : node) (msg : string) : result (Z * Z) :=
+  let loc := match err_loc msg with Some l => l | None => int_of "StmtLocation" raw end in
+  if String.eqb src "" || (loc =? 0)%Z then Ok (1, 1)%Z else line_number src loc.
 
 (** compile.go parseQueries over the statements of ONE query file, in source
     order: per statement [inl msg] = an error line, [inr q] = a query; unsupported
